@@ -118,6 +118,8 @@ def _guarded_check(mod, case, acc, known_keys):
             labels = mod.check_case(case)
         except Violation:
             raise
+        except core.Abort as a:
+            raise Violation(a.kind, a.detail) from None
         except Exception as e:
             v = core.as_violation(e)
             if v is None:
@@ -284,6 +286,8 @@ def replay_file(pid, path, quiet=False):
             mod.check_case(case)
         except Violation:
             raise
+        except core.Abort as a:
+            raise Violation(a.kind, a.detail) from None
         except Exception as e:
             v = core.as_violation(e)
             if v is None:
